@@ -18,6 +18,7 @@ structure HProj where
 structure St where
   fixed : Bool := true
   tomb : Bool := false          -- hooks/C14-fix3.patch semantics (proposal)
+  seg4 : Bool := false          -- hooks/C14-fix4.patch: repaired SerializedSegment.ToSegment
   am : AdjMap := {}
   csrb : CsrB := {}
   ts : TS := {}
@@ -162,7 +163,7 @@ def digests (st : St) : String :=
 
 def step0 (st : St) (ts : List String) : St × String :=
   match ts with
-  | ["graph"] => ({ fixed := st.fixed, tomb := st.tomb }, "ok")
+  | ["graph"] => ({ fixed := st.fixed, tomb := st.tomb, seg4 := st.seg4 }, "ok")
   | ["mode", "tomb"] => ({ st with tomb := true }, "ok")
   | ["mode", "fixed"] => ({ st with fixed := true }, "ok")
   | ["mode", "old"] => ({ st with fixed := false }, "ok")
@@ -221,7 +222,7 @@ def step0 (st : St) (ts : List String) : St × String :=
         | none => (st, "panic")
       | none => (st, "bad-op")
   | ["toseg", ns, es] => match parseIds ns, parseIds es with
-      | some ns, some es => match toSegment ns es with
+      | some ns, some es => match (if st.seg4 then some (toSegment ns es) else toSegmentOld ns es) with
         | some sg => (st, s!"nodes={natList (segNodes sg)} edges={natList (segEdges sg)}")
         | none => (st, "index-panic")
       | _, _ => (st, "bad-op")
@@ -260,4 +261,7 @@ def suiteTomb : Suite := { σ := St, init := { tomb := true }, step := step }
 end Driver.C14
 
 def Driver.C14.suites : List (String × Driver.Suite) :=
-  [("c14", Driver.C14.suite), ("c14old", Driver.C14.suiteOld), ("c14t", Driver.C14.suiteTomb)]
+  [("c14", Driver.C14.suite), ("c14old", Driver.C14.suiteOld), ("c14t", Driver.C14.suiteTomb),
+   -- `s` = hooks/C14-fix4.patch landed (repaired ToSegment); selected by lib/props/c14.py from known_findings.json
+   ("c14s", { Driver.C14.suite with init := ({ seg4 := true } : Driver.C14.St) }),
+   ("c14ts", { Driver.C14.suite with init := ({ tomb := true, seg4 := true } : Driver.C14.St) })]
